@@ -81,9 +81,10 @@ theorem C19_restore_stopall (env : Env) (cs : List (Nat × PSpec)) (ps : List Na
     instance, every one of the four calling conventions
     runs the replacement exactly once with the descriptor prefix followed by the caller's arguments and keyword
     arguments, and hands back what the replacement returned or raised; hence all four agree.
-    PARTIAL: `hm` excludes the one exposed combination - a function / classmethod / staticmethod object as the
+    PARTIAL: `hm` excludes the one formerly exposed combination - a function / classmethod / staticmethod object as the
     replacement, reached through a class or an instance, whose body is sensitive to asyncio mode (it makes a
-    synchronous asynq call); there the code does NOT agree: `C19_conventions_disagree_counterexample`. -/
+    synchronous asynq call); there the code did NOT agree before /repo fix 45a545c.  In the model of the repaired code
+    `hm` holds of every spec: `C19_conventions_agree` below is this theorem without it. -/
 theorem C19_conventions_agree_partial (p n : Nat) (s : PSpec) (pt : Patcher) (d : Defaults) (hc : construct d p s = .ok pt) (via : Via)
     (args : List Nat) (kw : List (Nat × Nat)) (pre : List Nat) (hpre : expectedPrefix s.repl via = some pre)
     (hm : s.modeExposed via = false) (c c' : Conv) :
@@ -210,7 +211,8 @@ theorem C19_spec_holds_partial (env : Env) (ops : List Op)
 /-- **C19 as a whole, for the code as it is** (`Defaults.current`: both signatures default `autospec=None`, which the
     harness re-reads from the code on every run, so `hc` above is true of every history): for EVERY environment of
     targets and EVERY history of operations, well nested or not, that satisfies `hm`, the observer accepts the
-    observations of the model.  `hm` is necessary: `C19_asyncio_mode_counterexample`. -/
+    observations of the model.  (`hm` was necessary before /repo fix 45a545c; in the model of the repaired code it holds
+    of every history - `C19_spec_holds` - and `C19_asyncio_mode_repaired` replays the former counterexample.) -/
 theorem C19_spec_holds_current_partial (env : Env) (ops : List Op) (hd : env.defaults = Defaults.current)
     (hm : ops.all (Op.modeSafe env) = true) :
     spec env (run env ops) = true := by
@@ -928,10 +930,13 @@ example : spec { entered := false, during := none, after := .orig } = true := by
 example : runCurrent .rejecting .startStopall = { entered := false, during := none, after := .orig } := by decide
 example : runCurrent .accepting .deco = { entered := true, during := some .product, after := .orig } := by decide
 
-/-- **round 5 - whatever the product's `__setattr__` raises**: with the clause of mock_.py today (`except BaseException`
-    = `catchAll`), for every product, every activation style and EVERY class of exception the attribute assignment
-    raises (the two documented ones, ValueError, a KeyError subclass, RuntimeError, a falsy exception, a
-    BaseException-only one), the original is back when the statement is over -/
+/-- round 5 - whatever the product's `__setattr__` raises: with the clause of mock_.py today (`except BaseException`
+    = `catchAll`), for every product, every activation style and every class of exception the attribute assignment
+    raises, the original is back when the statement is over.
+    HOLDS BY CONSTRUCTION (third audit, section C): `exc` is inert - `runWith catchAll p e s = runCurrent p s` by `rfl`
+    (example below) - so this is `C19_enter_failure_restores` re-stated; listed under BY_CONSTRUCTION in c19.py.  The
+    claim with content (the real `except` clause catches the two documented classes, ValueError, a KeyError subclass,
+    RuntimeError, a falsy exception, a BaseException-only one) is the harness family `enterfail` on the real code. -/
 theorem C19_enter_failure_restores_any_exception (prod : Product) (exc : ExcClass) (style : Style) :
     spec (runWith catchAll prod exc style) = true ∧ (runWith catchAll prod exc style).after = Held.orig := by
   have h := C19_enter_failure_restores prod style
@@ -939,7 +944,9 @@ theorem C19_enter_failure_restores_any_exception (prod : Product) (exc : ExcClas
 
 /-- ... and catching ALL classes is necessary: whatever `except` clause is used, if there is a class of exception it does
     not catch, an attribute-rejecting product that raises it stays installed for good, in every activation style
-    (so narrowing the clause to `(AttributeError, TypeError)` or to `Exception` breaks C19) -/
+    (so narrowing the clause to `(AttributeError, TypeError)` or to `Exception` breaks C19).
+    HOLDS BY CONSTRUCTION as well: after `rw [h]` it is `C19_enter_failure_needs_undo` (the model looks at `catches exc`,
+    never at `exc`); BY_CONSTRUCTION in c19.py.  The seeded narrowings of the clause are caught by family `enterfail`. -/
 theorem C19_enter_failure_catch_all_necessary (catches : ExcClass → Bool) (exc : ExcClass) (style : Style)
     (h : catches exc = false) :
     (runWith catches .rejecting exc style).after = Held.product ∧
@@ -948,6 +955,9 @@ theorem C19_enter_failure_catch_all_necessary (catches : ExcClass → Bool) (exc
   unfold runWith
   rw [h]
   exact C19_enter_failure_needs_undo style
+
+/-- `exc` is inert under the clause of today -/
+example (p : Product) (e : ExcClass) (s : Style) : runWith catchAll p e s = runCurrent p s := rfl
 
 /-- non-vacuity: the two narrower clauses each miss a class -/
 example : catchDocumented .valueError = false ∧ catchException .baseOnly = false ∧
